@@ -165,13 +165,16 @@ static void print_flags(int flags)
 }
 
 static char lock_path[64];
+static char dir_path[64]; // "D" cases: the object every handle is opened on is a DIRECTORY (flock works on any open file)
+static int  use_dir;
+#define OBJ_PATH (use_dir ? dir_path : lock_path)
 
 // A case line may start with "@<n>": errno is set to n immediately before every library call under test.
 static int entry_errno;
 
 static void case_scripted(char** tok)
 {
-  FILE* f = fopen(lock_path, open_mode(tok[5][0]));
+  FILE* f = fopen(OBJ_PATH, use_dir ? "r" : open_mode(tok[5][0]));
   if (!f) {
     puts("nofile");
     return;
@@ -262,8 +265,15 @@ static void occ_enter(void)
 static void worker_loop(Worker* w)
 {
   my_idx        = w->idx;
-  FILE* f       = fopen(lock_path, open_mode(w->mode));
+  FILE* f       = fopen(OBJ_PATH, use_dir ? "r" : open_mode(w->mode));
   int   holding = 0;
+  {
+    // ready: the handle is open (the scheduler issues no step - an unlink of the lock file, say - before every
+    // worker, process or thread, has said so)
+    unsigned char hello[3] = {0xEE, 0, 0};
+    while (write(w->reply[1], hello, 3) < 0 && errno == EINTR) {
+    }
+  }
   for (;;) {
     char    c = 0;
     ssize_t n = read(w->cmd[0], &c, 1);
@@ -318,7 +328,7 @@ static void worker_loop(Worker* w)
       break;
     case 'o':
       if (!f) {
-        f = fopen(lock_path, open_mode(w->mode));
+        f = fopen(OBJ_PATH, use_dir ? "r" : open_mode(w->mode));
       }
       st = f ? ZIX_STATUS_SUCCESS : ZIX_STATUS_ERROR;
       break;
@@ -340,9 +350,6 @@ static void* thread_main(void* arg)
 {
   Worker* w = (Worker*)arg;
   w->tid    = (pid_t)syscall(SYS_gettid);
-  unsigned char hello[3] = {0xEE, 0, 0};
-  while (write(w->reply[1], hello, 3) < 0 && errno == EINTR) {
-  }
   worker_loop(w);
   return NULL;
 }
@@ -465,7 +472,7 @@ static void case_lockstep(char** tok)
       close(fd);
     }
   }
-  FILE* const probe = fopen(lock_path, "r+");
+  FILE* const probe = fopen(OBJ_PATH, use_dir ? "r" : "r+");
   for (int i = 0; i < n; ++i) {
     memset(&w[i], 0, sizeof(Worker));
     w[i].kind = tok[1][2 * i];
@@ -497,10 +504,12 @@ static void case_lockstep(char** tok)
   }
   for (int i = 0; i < n; ++i) {
     if (w[i].kind != 'p') {
-      unsigned char hello[3];
       pthread_create(&w[i].th, NULL, thread_main, &w[i]);
-      collect(&w[i], hello, 1);
     }
+  }
+  for (int i = 0; i < n; ++i) {
+    unsigned char hello[3];
+    collect(&w[i], hello, 1); // every worker has opened its handle
   }
   char* sched = strdup(tok[2]);
   char* save  = NULL;
@@ -620,6 +629,9 @@ static void cleanup(void)
   if (lock_path[0]) {
     unlink(lock_path);
   }
+  if (dir_path[0]) {
+    rmdir(dir_path);
+  }
 }
 
 int main(void)
@@ -635,6 +647,10 @@ int main(void)
     return 2;
   }
   close(fd);
+  snprintf(dir_path, sizeof(dir_path), "%s/zix_c19_dir.XXXXXX", getenv("VERIF_SCRATCH") ? getenv("VERIF_SCRATCH") : "/tmp");
+  if (!mkdtemp(dir_path)) {
+    dir_path[0] = 0;
+  }
   atexit(cleanup);
   shared = (Shared*)mmap(NULL, sizeof(Shared), PROT_READ | PROT_WRITE, MAP_SHARED | MAP_ANONYMOUS, -1, 0);
   if (shared == MAP_FAILED) {
@@ -651,6 +667,12 @@ int main(void)
   while (vgetline(&line, &cap)) {
     int n = vsplit(line, tok, 8);
     entry_errno = 0;
+    use_dir     = 0;
+    if (n > 0 && !strcmp(tok[0], "D") && dir_path[0]) {
+      use_dir = 1;
+      --n;
+      memmove(tok, tok + 1, (size_t)n * sizeof(tok[0]));
+    }
     if (n > 0 && tok[0][0] == '@') {
       entry_errno = atoi(tok[0] + 1);
       --n;
